@@ -470,3 +470,69 @@ contract('cat.Arrow.upgrade', params=_p_arrow_up, ensures=_e_up, property_ids=PI
 contract('monoidal.Diagram.upgrade', params=_p_diagram_up, ensures=_e_up, property_ids=PIDS)
 _c = contract('monoidal.Diagram.subclass.<locals>.upgrade', params=_p_diagram_up, ensures=_e_up, property_ids=PIDS)
 _c.closure_env = {'ar_factory': VClass('rigid.Diagram')}
+
+
+# ---------------------------------------------------------------- powers of a type: t ** n is the n-fold tensor of t
+POW = z3.Function('ty_power', T.TyS, T.IntS, T.TyS)     # pow(t, 0) = (), pow(t, k + 1) = pow(t, k) ++ t   (definition)
+
+
+def _p_pow(ex):
+    _pointwise(ex)
+    s = ex.sym_ty('self')
+    v = ex.fork(2)
+    n = ex.sym_int('n_times') if v == 0 else NONE
+    ex._ty = (s, n)
+    ex.assume(POW(s.t, T.I(0)) == T.EMPTY)
+    return [s, n], {}
+
+
+def _pow_assume(interp, env, k, seq, at_exit):
+    ex = interp.ex
+    s, n = ex._ty
+    env.set('result', VTy(POW(s.t, k)))
+
+
+def _pow_check(interp, env, k, label, seq):
+    ex = interp.ex
+    s, n = ex._ty
+    if T.int_val(k) != 0:
+        ex.assume(POW(s.t, k) == T.ty_concat(POW(s.t, k - 1), s.t))          # the defining equation at k - 1
+        # lemma type.power.commutes (by induction, below): appending or prepending t to a power of t is the same
+        ex.assume(T.ty_concat(POW(s.t, k - 1), s.t) == T.ty_concat(s.t, POW(s.t, k - 1)))
+    cur = env.lookup('result')
+    ex.prove(label + ':result is the k-fold tensor of self', isinstance(cur, VTy) and T.ty_eq(cur.t, POW(s.t, k)))
+
+
+def _e_pow(interp, args, kwargs, result):
+    ex = interp.ex
+    s, n = ex._ty
+    if not isinstance(n, VInt):
+        ex.prove('C01:Ty ** n accepts only integers', False)
+        return
+    times = z3.If(n.t > 0, n.t, 0)
+    ex.prove('C01:t ** n is the n-fold tensor of t (the unit for n <= 0)', isinstance(result, VTy) and T.ty_eq(result.t, POW(s.t, times)))
+
+
+def _r_pow(interp, args, kwargs, exc):
+    ex = interp.ex
+    s, n = ex._ty
+    ex.prove('C01:Ty ** n refuses only non-integers, with TypeError (raised %s)' % exc,
+             z3.BoolVal(exc == 'TypeError' and not isinstance(n, VInt)))
+
+
+contract('monoidal.Ty.__pow__', params=_p_pow, ensures=_e_pow, on_raise=_r_pow, property_ids=PIDS,
+         loops={0: LoopSpec(assume=_pow_assume, check=_pow_check)})
+
+
+def _lemma_pow_commutes(interp):
+    ex = interp.ex
+    t, k = z3.Const('t', T.TyS), z3.Int('k')
+    ex.assume(k >= 1)
+    ex.assume(POW(t, T.I(0)) == T.EMPTY)
+    ex.prove('C01:pow(t, 0) ++ t == t ++ pow(t, 0)   (base)', T.ty_eq(T.ty_concat(POW(t, T.I(0)), t), T.ty_concat(t, POW(t, T.I(0)))))
+    ex.assume(POW(t, k) == T.ty_concat(POW(t, k - 1), t))                      # definition at k - 1
+    ex.assume(T.ty_concat(POW(t, k - 1), t) == T.ty_concat(t, POW(t, k - 1)))   # induction hypothesis at k - 1
+    ex.prove('C01:pow(t, k) ++ t == t ++ pow(t, k)   (step)', T.ty_eq(T.ty_concat(POW(t, k), t), T.ty_concat(t, POW(t, k))))
+
+
+lemma('type.power.commutes', _lemma_pow_commutes, PIDS)
